@@ -6,18 +6,9 @@ import (
 )
 
 func main() {
-	// the dynmap stream re-executes this binary for every history
+	// the profile runs in a worker process (a crash of the pipeline becomes a finding)
 	if pipeline.ChildMain() {
 		return
 	}
-	emit.Main("C13", func(seed int64, tier, outDir string) (*emit.Summary, error) {
-		sum, err := pipeline.RunFor("C13")(seed, tier, outDir)
-		if err != nil {
-			return nil, err
-		}
-		if err := pipeline.AddDynmap(sum, seed, tier, outDir); err != nil {
-			return nil, err
-		}
-		return sum, nil
-	})
+	emit.Main("C13", pipeline.Supervised("C13"))
 }
